@@ -233,6 +233,17 @@ def rule_jr(repo):
     res.inst({'function': f.fq, 'delegates_to_Log_Jr': ok}, f.fq)
     if not ok:
         res.add(Finding('C05.JR', f, 'SO3Type.Jr must be the so3 Jr of Log(X)', construct='SO3 Jr'))
+    # Jr(x) is the Jacobian AT x: the vector is not re-parametrised first.  Exp(Log(.)) / a reduction modulo 2 pi gives the same rotation, but the right Jacobian
+    # of the wrapped vector is another matrix than the one at x for every |x| > pi
+    px = g0.pos_params[1] if len(g0.pos_params) > 1 else g0.pos_params[0]
+    for a in ast.walk(g0.node):
+        if isinstance(a, ast.Assign) and any(isinstance(t, ast.Name) and t.id == px for t in a.targets):
+            wraps = [c for c in ast.walk(a.value) if isinstance(c, ast.Call) and (dotted(c.func) or (c.func.attr if isinstance(c.func, ast.Attribute) else '')).split('.')[-1]
+                     in ('Exp', 'Log', 'remainder', 'fmod', 'normalize', 'atan2')] + [b for b in ast.walk(a.value) if isinstance(b, ast.BinOp) and isinstance(b.op, ast.Mod)]
+            res.inst({'function': g0.fq, 'argument rebound to': src(a.value)[:50], 're-parametrised': bool(wraps)}, (g0.fq, 'rebind', src(a.value)[:50]))
+            if wraps:
+                res.add(Finding('C05.JR', g0, 'so3 Jr rebinds its argument to `%s` before the closed form: the right Jacobian is taken at the wrapped (principal-branch) vector, '
+                                'which equals Jr(x) only for |x| <= pi' % src(a.value)[:50], node=a, construct='Jr argument re-parametrised'))
     # the fallback branch of the where is the identity
     g = repo.func(LT, 'so3Type.Jr')
     rv = returned_calls(g)
